@@ -183,9 +183,24 @@ class ConcreteInfer(IM.InferScenario):
             return union(st.freeze(key), NONE)
         return self.on_subscript(obj, key, node, st)
 
+    cyclic: Optional[V] = None   # a container that holds ITSELF (the element S('itself') stands for it)
+    entered = 0
+
     def hook2(self, call: ast.Call, fname: Optional[str], fval: Optional[V], args: List[V], kwargs: Dict[str, V], st: State) -> Optional[V]:
         d = fname or ""
         meth = call.func.attr if isinstance(call.func, ast.Attribute) else None
+        if self.cyclic is not None and args and args[0] == S("itself") and d.split(".")[-1] == "get_type":
+            # the element IS the container: the call is the one that is already running.  Interpreted again (a guard of the source
+            # gets its chance); the third entry for the same object is taken for what it is - recursion without end
+            self.entered += 1
+            if self.entered >= 3:
+                from mtsa.absint import raise_exc
+                raise_exc(st, "RecursionError")
+                return U("maximum recursion depth exceeded")
+            callee = self.ri.resolve(call, fval)
+            if callee is None:
+                return None
+            return self.ri.inline_call(callee, call, None, [self.cyclic] + list(args[1:]), dict(kwargs), st)
         if d == "type" and len(args) == 1 and isinstance(args[0], K):
             c = class_of(args[0])
             return S(c) if c else None
@@ -225,6 +240,14 @@ def infer(repo: Repo, v: V, k: int) -> V:
     sc = ConcreteInfer(repo, "get_type")
     ps = sc.fi.positional_params()
     return sc.result({ps[0]: v, ps[1]: K(k)})
+
+
+def infer_cyclic(repo: Repo, make: Any, k: int) -> V:
+    """get_type of a container that contains itself: make(S('itself')) builds the value around the self-reference"""
+    sc = ConcreteInfer(repo, "get_type")
+    sc.cyclic = make(S("itself"))
+    ps = sc.fi.positional_params()
+    return sc.result({ps[0]: sc.cyclic, ps[1]: K(k)})
 
 
 def merge(repo: Repo, types: Tuple[V, ...], k: int) -> V:
